@@ -435,3 +435,250 @@ Section SegCanon.
       split; [eapply linked_prefix; exact Hlall | apply Forall_app in HpU as [H _]; exact H].
   Qed.
 End SegCanon.
+
+(* ------------------------------------------------------------------ target-cursor mode *)
+
+Section FinalTgt.
+  Variable U : list block.
+  Variable c : jcfg.
+  Variable w : world.
+  Variable ps : list (N * N).
+  Variable merged_end : N.
+  Variables canon forked : list block.
+  Variable cu : cursor.
+  Variable B : block.
+  Variable start : N.
+
+  Hypothesis U_id : forall b, In b U -> bid b <> 0 /\ bid b <> bparent b.
+  Hypothesis U_uniq : forall x y, In x U -> In y U -> bid x = bid y -> x = y.
+  Hypothesis U_up : forall x y, In x U -> In y U -> bparent x = bid y -> bnum y < bnum x.
+  Hypothesis D_decl : forall b, In b U -> decl_none U b.
+
+  Hypothesis Hchain : chain_ok canon.
+  Hypothesis Hincl : incl canon U.
+  Hypothesis Hstartblk : exists b, In b canon /\ bnum b = start.
+  Hypothesis Hstart : run_start c w = start.
+  Hypothesis HW : WOK U c w.
+  Hypothesis Htip : eventual_tip c w canon.
+  Hypothesis Hmode : j_mode c = 2.
+  Hypothesis Hcur : j_cursor c = Some cu.
+  Hypothesis Hfilter : j_filter c = 1.
+  Hypothesis Hbundle : 0 < j_bundle c.
+  Hypothesis HBc : In B canon.
+  Hypothesis HB : bref B = cu_blk cu.
+  Hypothesis Hfc : cu_lib cu = cu_blk cu.
+
+  Let merged := filter (fun b => bnum b <? merged_end) canon.
+  Hypothesis Hbound : Forall (fun b => bnum b < file_bound) merged.
+
+  Let res := stream_run c w ps merged_end merged forked.
+  Let stopf := if j_stop c =? 0 then file_bound else j_stop c.
+  Let D := file_delivery merged start stopf (j_bundle c).
+  Let fend0 := if negb (j_stop c =? 0) && ((j_stop c / j_bundle c + 1) * j_bundle c <=? merged_end) then JStop else JNil.
+  Let first := j_first c.
+  Let kept := j_kept c.
+
+  Let HcU : Forall (fun x => In x U) canon.
+  Proof. apply Forall_forall. exact Hincl. Qed.
+  Let Hcl : exists x, lnk x canon := lnk_of_chain_ok canon Hchain.
+  Let HmU : forall b, In b merged -> In b U.
+  Proof. intros b Hb. apply Hincl. unfold merged in Hb. apply filter_In in Hb as [Hb _]. exact Hb. Qed.
+  Let Hsl : exists b, In b canon /\ bnum b <= start.
+  Proof. destruct Hstartblk as (b0 & H1 & H2). exists b0. split; [exact H1 | lia]. Qed.
+
+  Let D_ok' : chain_ok D := dlv_ok c canon start merged_end Hchain.
+  Let D_bot' : forall z r, D = z :: r -> bnum z <= start := dlv_bot c canon start merged_end Hchain Hstartblk.
+
+  Notation nshape := (none_shape c canon w start).
+
+  Lemma ft_D_in b : In b D -> In b merged /\ In b canon /\ start <= bnum b.
+  Proof.
+    intros H. apply (dlv_in c canon start merged_end b) in H. destruct H as [Hm [Hs _]]. split; [exact Hm|]. split; [|exact Hs].
+    unfold merged in Hm. apply filter_In in Hm as [Hm _]. exact Hm.
+  Qed.
+
+  Lemma ft_mem : start_mem c = None.
+  Proof. unfold start_mem. rewrite Hmode. reflexivity. Qed.
+
+  (* the hub's LIB block lies at or below the parent of a canonical block above it *)
+  Lemma lib_le_parent wk mm a Fin A bn p :
+    wk = world_after c mm w -> LOKX U c a Fin A wk ->
+    In bn canon -> In p canon -> bparent bn = bid p -> bnum (libblk a Fin) < bnum bn ->
+    bnum (libblk a Fin) <= bnum p.
+  Proof.
+    intros Ewk HLX Hbn Hp Hpar Hlt. set (Lj := libblk a Fin) in *.
+    destruct (chain_of_run U c canon w U_id U_uniq U_up D_decl HcU Hcl Htip wk a Fin A mm Ewk HLX) as (C & [xc HlC] & HCU & HcC & HFC).
+    destruct HLX as (_ & [V HX] & _).
+    destruct (vstatex_rev U first kept U_id U_uniq U_up a Fin A _ V HX) as (prej & _ & EAF & _ & _ & _). fold Lj in EAF.
+    assert (HLjC : In Lj C) by (apply HFC; rewrite EAF; apply in_or_app; right; left; reflexivity).
+    pose proof (lnk_sorted U U_id U_uniq U_up C xc HlC HCU) as HSC.
+    pose proof (HcC bn Hbn) as HbnC. apply in_split in HbnC as (Ca & Cb & EC).
+    rewrite EC in HSC, HlC, HLjC, HCU.
+    destruct (StronglySorted_split blt Ca bn Cb HSC) as [HA HB'].
+    assert (HLjCa : In Lj Ca).
+    { apply in_app_or in HLjC as [H|[H|H]]; [exact H | subst bn; lia | specialize (HB' Lj H); unfold blt in HB'; lia]. }
+    destruct Ca as [|r Ca' _] using rev_ind; [destruct HLjCa|].
+    pose proof (linked_mid _ _ _ _ HlC) as Hm. rewrite tip_snoc in Hm.
+    assert (Er : r = p).
+    { apply U_uniq; [rewrite Forall_forall in HCU; apply HCU; apply in_or_app; left; apply in_or_app; right; left; reflexivity
+                    | apply Hincl; exact Hp | congruence]. }
+    subst r. apply in_app_or in HLjCa as [H|[H|[]]]; [|rewrite <- H; lia].
+    rewrite <- app_assoc in HSC. cbn [app] in HSC.
+    destruct (StronglySorted_split blt Ca' p (bn :: Cb) HSC) as [HA' _]. specialize (HA' Lj H). unfold blt in HA'. lia.
+  Qed.
+
+  (* ---------------------------------------------------------------- the shapes *)
+
+  Lemma ft_live burst k :
+    h_ready (w_hub w) = true -> hub_through_cursor (h_f (w_hub w)) start cu = BOk burst ->
+    nshape (map eblk (filter irr_ev (burst ++ pushed c k w))) (w_rest (world_after c k w) = []).
+  Proof.
+    intros Hrd Hb.
+    destruct (g_lokx_of_world U c U_id U_uniq U_up D_decl w HW Hrd) as (a & Fin & A & V & HLX & HX).
+    assert (Ew0 : w = world_after c 0 w) by reflexivity.
+    destruct (through_irr U c canon w U_id U_uniq U_up D_decl HcU Hcl Htip w 0%nat a Fin A V start cu burst Ew0 HLX HX Hfc Hb) as [Hirr2 Hirr1].
+    set (Lj := libblk a Fin) in *.
+    rewrite filter_irr_app, map_app.
+    destruct (N.le_gt_cases start (bnum Lj)) as [Hle|Hgt].
+    - destruct Hstartblk as (b0 & Hb0 & Hnb0).
+      destruct (Hirr1 b0 Hb0 Hnb0 Hle) as (q1 & t & Ebi & Et & Hl & HU'). rewrite Ebi.
+      apply (tail_none U c canon w start U_id U_uniq U_up D_decl HcU Hcl Hsl Htip w 0%nat a Fin A (q1 ++ [Lj]) k Ew0 HLX (ex_intro (fun x => lnk x (q1 ++ [Lj])) _ Hl) HU').
+      fold Lj. rewrite Et. split; [lia|]. rewrite <- Et, last_last. left. reflexivity.
+    - rewrite (Hirr2 Hgt). cbn [map app].
+      apply (tail_none U c canon w start U_id U_uniq U_up D_decl HcU Hcl Hsl Htip w 0%nat a Fin A [] k Ew0 HLX (ex_intro (fun x => lnk x []) 0 I) (Forall_nil _)).
+      exact Hgt.
+  Qed.
+
+  Lemma ft_join m Dpre bn D'' lowest burst k :
+    (exists x, lnk x (Dpre ++ bn :: D'')) -> (forall b, In b (Dpre ++ bn :: D'') -> In b D) ->
+    (forall z r, Dpre ++ bn :: D'' = z :: r -> bnum z <= start) ->
+    join_try c (world_after c m w) lowest (fev bn) = Some burst ->
+    nshape (map eblk (filter irr_ev (map fev Dpre ++ burst ++ pushed c k (world_after c m w))))
+           (w_rest (world_after c k (world_after c m w)) = []).
+  Proof.
+    intros [x0 HlD] HinD Hbot Ej. set (wj := world_after c m w) in *.
+    pose proof (wok_after U c U_id U_uniq U_up D_decl m w HW) as HWj. fold wj in HWj.
+    destruct (join_try_some c wj lowest (fev bn) burst Ej) as (_ & _ & Hrd).
+    assert (Hb : hub_through_cursor (h_f (w_hub wj)) (bnum bn) cu = BOk burst).
+    { unfold join_try in Ej. rewrite Hmode, Hcur in Ej. cbn [N.eqb Pos.eqb orb] in Ej.
+      destruct ((lowest <=? bnum (eblk (fev bn))) && matches_new (estep (fev bn))); [|discriminate]. cbn [eblk file_event] in Ej.
+      destruct (hub_through_cursor (h_f (w_hub wj)) (bnum bn) cu) as [evs| | |]; try discriminate.
+      rewrite Hrd in Ej. cbn [andb] in Ej. injection Ej as <-. reflexivity. }
+    destruct (g_lokx_of_world U c U_id U_uniq U_up D_decl wj HWj Hrd) as (a & Fin & A & V & HLX & HX).
+    destruct (through_irr U c canon w U_id U_uniq U_up D_decl HcU Hcl Htip wj m a Fin A V (bnum bn) cu burst eq_refl HLX HX Hfc Hb) as [Hirr2 Hirr1].
+    set (Lj := libblk a Fin) in *.
+    assert (HbnD : In bn D) by (apply HinD; apply in_or_app; right; left; reflexivity).
+    destruct (ft_D_in bn HbnD) as (_ & Hbnc & Hbns).
+    assert (HDpU : Forall (fun y => In y U) Dpre).
+    { apply Forall_forall. intros y Hy. apply HmU. apply ft_D_in. apply HinD. apply in_or_app. left. exact Hy. }
+    assert (HlDbn : lnk x0 (Dpre ++ [bn])).
+    { change (bn :: D'') with ([bn] ++ D'') in HlD. rewrite app_assoc in HlD. eapply linked_prefix. exact HlD. }
+    assert (HlDpre : lnk x0 Dpre) by (eapply linked_prefix; exact HlDbn).
+    assert (Hpbn : bparent bn = tip x0 Dpre) by exact (linked_mid _ _ _ _ HlDbn).
+    rewrite !filter_irr_app, !map_app.
+    assert (Ef : map eblk (filter irr_ev (map fev Dpre)) = Dpre).
+    { rewrite (C06_Lists.filter_all _ _ (map fev Dpre)); [apply map_eblk_fev|].
+      apply Forall_forall. intros e He. apply in_map_iff in He as (b & <- & _). reflexivity. }
+    rewrite Ef.
+    destruct (N.le_gt_cases (bnum bn) (bnum Lj)) as [Hle|Hgt].
+    - (* the join is at or below the hub's LIB: the answer's final part starts with the file block itself *)
+      destruct (Hirr1 bn Hbnc eq_refl Hle) as (q1 & t & Ebi & Et & Hl & HU'). rewrite Ebi.
+      assert (Hlall : lnk x0 (Dpre ++ q1 ++ [Lj])).
+      { apply linked_app_iff. split; [exact HlDpre|]. rewrite Et in Hl |- *. cbn [lnk] in Hl |- *. destruct Hl as [_ Hl]. auto. }
+      replace (Dpre ++ (q1 ++ [Lj]) ++ map eblk (filter irr_ev (pushed c k wj)))
+        with ((Dpre ++ q1 ++ [Lj]) ++ map eblk (filter irr_ev (pushed c k wj))) by (rewrite <- !app_assoc; reflexivity).
+      apply (tail_none U c canon w start U_id U_uniq U_up D_decl HcU Hcl Hsl Htip wj m a Fin A (Dpre ++ q1 ++ [Lj]) k eq_refl HLX (ex_intro (fun x => lnk x (Dpre ++ q1 ++ [Lj])) _ Hlall)).
+      + apply Forall_app. split; assumption.
+      + fold Lj. destruct (Dpre ++ q1 ++ [Lj]) as [|z r] eqn:Ez; [destruct Dpre; [destruct q1|]; discriminate|].
+        split.
+        * destruct Dpre as [|d Dp]; cbn [app] in Ez.
+          -- rewrite Et in Ez. injection Ez as <- _. apply (Hbot bn D''). reflexivity.
+          -- injection Ez as <- _. apply (Hbot d (Dp ++ bn :: D'')). reflexivity.
+        * rewrite <- Ez, !app_assoc, last_last. left. reflexivity.
+    - (* the join is above the hub's LIB: nothing of the answer is final *)
+      rewrite (Hirr2 Hgt). cbn [map app].
+      destruct Dpre as [|p Dp _] using rev_ind.
+      + apply (tail_none U c canon w start U_id U_uniq U_up D_decl HcU Hcl Hsl Htip wj m a Fin A [] k eq_refl HLX (ex_intro (fun x => lnk x []) 0 I) (Forall_nil _)).
+        fold Lj. cbn [app] in Hbot. specialize (Hbot bn D'' eq_refl). lia.
+      + assert (Hpc : In p canon).
+        { apply (ft_D_in p). apply HinD. apply in_or_app. left. apply in_or_app. right. left. reflexivity. }
+        rewrite tip_snoc in Hpbn.
+        pose proof (lib_le_parent wj m a Fin A bn p eq_refl HLX Hbnc Hpc Hpbn Hgt) as HLp. fold Lj in HLp.
+        assert (Hbot' : forall z r, Dp ++ [p] = z :: r -> bnum z <= start).
+        { intros z r Ez. apply (Hbot z (r ++ bn :: D'')). change (z :: r ++ bn :: D'') with ((z :: r) ++ bn :: D''). rewrite <- Ez. reflexivity. }
+        apply (tail_none U c canon w start U_id U_uniq U_up D_decl HcU Hcl Hsl Htip wj m a Fin A (Dp ++ [p]) k eq_refl HLX (ex_intro (fun x => lnk x (Dp ++ [p])) _ HlDpre) HDpU).
+        fold Lj. assert (Elast : last (Dp ++ [p]) Lj = p) by apply last_last.
+        destruct (Dp ++ [p]) as [|z r] eqn:Ez; [destruct Dp; discriminate|].
+        split; [exact (Hbot' z r eq_refl)|]. rewrite Elast. right. split; [exact Hpc | exact HLp].
+  Qed.
+
+  (* ---------------------------------------------------------------- the theorem *)
+
+  Lemma tgt_final :
+    final_fold None (fst res) = true /\
+    (snd res = JNil ->
+       (exists D1 D2, from_num start merged = D1 ++ D2 /\ map eblk (fst res) = D1) \/
+       exists hi, final_lib c w <= hi /\ from_num start (map eblk (fst res)) = seg_num start hi canon).
+  Proof.
+    pose proof (c07_run_shapes_proof c w ps merged_end merged forked) as Hsh. cbv zeta in Hsh.
+    destruct (tgt_files c w ps merged_end canon forked cu B start Hchain Hstart Hmode Hcur HBc HB) as (D1 & D2 & fend & ED & Erf & Hfend).
+    fold merged stopf D in ED, Erf. rewrite Erf in Hsh. cbn [fst snd] in Hsh. fold res in Hsh. rewrite Hstart in Hsh.
+    assert (Hseen : forall X, seen c X = undup c None X) by (intros X; rewrite (seen_final c X Hfilter), ft_mem; reflexivity).
+    assert (Hraw : forall X P, raw_out c (undup c None X) res P -> nshape (map eblk (filter irr_ev X)) P ->
+              final_fold None (fst res) = true /\
+              (snd res = JNil ->
+                 (exists D1 D2, from_num start merged = D1 ++ D2 /\ map eblk (fst res) = D1) \/
+                 exists hi, final_lib c w <= hi /\ from_num start (map eblk (fst res)) = seg_num start hi canon)).
+    { intros X P Hro (Bd & EBd & HlB & Hcompl).
+      destruct (undup_sorted c X None) as (Hp & _ & _).
+      split.
+      - apply (prefix_fold c Hfilter X); [exact (raw_out_prefix_of c _ res P Hp Hro) | rewrite EBd; exact HlB].
+      - intros Hn. right. unfold raw_out in Hro. rewrite Hn in Hro. destruct Hro as (HP & Hns & Hf).
+        destruct (Hcompl HP) as (hi & Hhi & E). exists hi. split; [exact Hhi|].
+        rewrite Hf, (pass_delivered c _ Hp Hns), (undup_blocks c Hfilter X None), EBd. exact E. }
+    destruct (lnk_of_chain_ok D D_ok') as [x0 HlD].
+    destruct Hsh as [[_ Hr]|[Hrej [(burst & k & Hlt & Hro)|[[_ Hr]|[Hlt [(pre & e & rest0 & m & lowest & burst & k & Ef & Hns & Hj & Hro)|Hfo]]]]]].
+    - rewrite Hr. split; [reflexivity | discriminate].
+    - unfold live_try in Hlt. rewrite Hmode, Hcur in Hlt. cbn [N.eqb Pos.eqb] in Hlt.
+      destruct (h_ready (w_hub w)) eqn:Hrd; cbn [negb] in Hlt; [|discriminate].
+      rewrite Hseen in Hro. apply (Hraw _ _ Hro). exact (ft_live burst k Hrd Hlt).
+    - rewrite Hr. split; [reflexivity | discriminate].
+    - apply map_eq_app in Ef as (Dpre & D3 & ED1 & Epre & E3). apply map_eq_cons in E3 as (bn & D'' & ED3 & Ebn & _).
+      subst pre e D3. rewrite Hseen in Hro. apply (Hraw _ _ Hro).
+      assert (EDD : D = (Dpre ++ bn :: D'') ++ D2) by (rewrite ED, ED1; reflexivity).
+      apply (ft_join m Dpre bn D'' lowest burst k).
+      + exists x0. rewrite EDD in HlD. eapply linked_prefix. exact HlD.
+      + intros b Hb. rewrite EDD. apply in_or_app. left. exact Hb.
+      + intros z r Ez. apply (D_bot' z (r ++ D2)). rewrite EDD, Ez. reflexivity.
+      + exact Hj.
+    - (* files only *)
+      rewrite Hseen in Hfo.
+      assert (HD1U : Forall (fun y => In y U) D1).
+      { apply Forall_forall. intros y Hy. apply HmU. apply ft_D_in. rewrite ED. apply in_or_app. left. exact Hy. }
+      assert (HlD1 : lnk x0 D1) by (rewrite ED in HlD; eapply linked_prefix; exact HlD).
+      assert (Erec : records None (map eblk (filter irr_ev (map fev D1))) = D1).
+      { rewrite (C06_Lists.filter_all _ _ (map fev D1)), map_eblk_fev; [apply records_none; exact (lnk_sorted U U_id U_uniq U_up D1 x0 HlD1 HD1U)|].
+        apply Forall_forall. intros e He. apply in_map_iff in He as (b & <- & _). reflexivity. }
+      destruct (undup_sorted c (map fev D1) None) as (Hp & _ & _).
+      split.
+      + apply (prefix_fold c Hfilter (map fev D1)); [exact (files_out_prefix_of c _ fend res Hp Hfo) | rewrite Erec; exists x0; exact HlD1].
+      + intros Hn. left. exists D1, D2. destruct Hfo as [[Hns Hr]|[Hs Hr]]; rewrite Hr in Hn |- *; cbn [fst snd] in *; [|discriminate].
+        split.
+        * destruct Hfend as [E|E]; [|rewrite E in Hn; discriminate]. rewrite E in Hn.
+          rewrite <- ED. symmetry. exact (dlv_all c canon start merged_end Hbundle Hbound Hn).
+        * rewrite (pass_delivered c _ Hp Hns), (undup_blocks c Hfilter _ None), Erec. reflexivity.
+  Qed.
+End FinalTgt.
+
+Lemma c07_seamless_target_final_proof : C07_seamless_target_final_full.
+Proof.
+  intros U c w ps merged_end canon forked cu B Hwfb Hlok [[l [Hl Hhub]] Hrest] Hchain Hincl merged Htip
+         Hmode Hcur Hfilter Hbundle Hbound HBc HB Hfc res start Hstartblk.
+  assert (Hscope : disc_scope2_b U = true) by (unfold disc_scope2_b; rewrite Hwfb, Hlok; reflexivity).
+  pose proof (bridge_id U Hwfb) as Hid. pose proof (bridge_uniq U Hwfb) as Huniq. pose proof (bridge_up U Hwfb) as Hup.
+  pose proof (bridge2_decl_none U Hscope) as Hdecl.
+  assert (HW : WOK U c w).
+  { split; [|exact Hrest]. rewrite Hhub. apply (hub_ok_run U (j_first c) (j_kept c) Hwfb Hlok l Hl). }
+  exact (tgt_final U c w ps merged_end canon forked cu B start Hid Huniq Hup Hdecl Hchain Hincl Hstartblk eq_refl HW Htip Hmode Hcur Hfilter
+           Hbundle HBc HB Hfc Hbound).
+Qed.
